@@ -35,7 +35,11 @@ AST (dataclasses; `kind` is the class name)
                                         lines with their relative indentation, the last one closes the bracket)
     PyBlock(lines)                      @py: ... @endpy   (lines keep their relative indentation; '' is a blank line,
                                         a non-empty line of blanks/tabs is a whitespace-only line and is part of the
-                                        block as written)
+                                        block as written.  Normal form: the first non-blank line starts at column 0.
+                                        The `under-indented` family is written as the author wrote it: the first
+                                        non-blank line is indented and some later non-blank lines - continuation lines
+                                        of a bracketed expression, lines of a triple-quoted string - are indented
+                                        LESS; py_dedent(lines) is what the documented dedent rule makes of it)
     If(branches: [(cond|None, [Item])]) first cond is the @if, None is @else (last)
     For(var, coll, body)
     Jump(target, args='')
@@ -75,7 +79,10 @@ text never starts with a character that starts another line kind; on story lines
 line ends in `[`, `{` or `(` (what directives.extract_multiline_expression continues), brackets inside string
 literals are balanced, continuation lines never start with `#`; inside join blocks only shapes whose continuation
 lines do not start with `+`/`*` and contain no braces are generated.  Python blocks are valid Python after
-removing the common indentation (checked with ast.parse by the generator and by the shrinker).
+the documented dedent (py_dedent: the indentation of the first non-blank line is removed from every line that has
+at least that much, lines with less are left as written; checked with ast.parse by the generator and by the
+shrinker).  A line indented less than the first one only occurs inside a bracketed expression or a triple-quoted
+string (the only places where Python allows it).
 """
 from __future__ import annotations
 
@@ -483,10 +490,65 @@ def is_ws_only(line: str) -> bool:
     return line != "" and line.strip() == ""
 
 
+def _lead(line: str) -> int:
+    return len(line) - len(line.lstrip())
+
+
+def py_dedent(lines):
+    """The documented dedent of the body of a Python block, written independently of the implementation: the
+    indentation of the first non-blank line is the base; a non-blank line with at least that much indentation loses
+    exactly that many characters, a non-blank line with less is kept as written; blank and whitespace-only lines
+    become empty lines."""
+    base = next((_lead(l) for l in lines if l.strip()), None)
+    if base is None:
+        return ["" for _ in lines]
+    return [("" if not l.strip() else l[base:] if _lead(l) >= base else l) for l in lines]
+
+
+def py_block_ok(lines) -> bool:
+    """Valid Python once dedented (what both block syntaxes hand to the engine)."""
+    return python_ok("\n".join(py_dedent(lines)))
+
+
+def under_indented(lines) -> bool:
+    """Some non-blank line is indented less than the first non-blank line."""
+    real = [l for l in lines if l.strip()]
+    return bool(real) and any(_lead(l) < _lead(real[0]) for l in real)
+
+
+def under_indented_kinds(lines):
+    """Where the under-indented lines of a block stand: 'bracket' (continuation line of a bracketed expression) and/or
+    'triple-quote' (line of a triple-quoted string); read off Python's own tokenizer on the dedented block."""
+    import io
+    import tokenize
+    real = [l for l in lines if l.strip()]
+    if not under_indented(lines):
+        return set()
+    base = _lead(real[0])
+    rows = {n + 1 for n, l in enumerate(lines) if l.strip() and _lead(l) < base}
+    kinds = set()
+    try:
+        for tok in tokenize.generate_tokens(io.StringIO("\n".join(py_dedent(lines)) + "\n").readline):
+            if tok.type == tokenize.STRING and tok.start[0] != tok.end[0]:
+                if any(tok.start[0] < r <= tok.end[0] for r in rows):
+                    kinds.add("triple-quote")
+                    rows -= {r for r in rows if tok.start[0] < r <= tok.end[0]}
+    except (tokenize.TokenError, IndentationError, SyntaxError):
+        return {"unknown"}
+    if rows:
+        kinds.add("bracket")
+    return kinds
+
+
 def py_shape(lines):
     """Structural tags of the body of a Python block (evidence and signatures)."""
     tags = []
     real = [i for i, l in enumerate(lines) if l.strip()]
+    if real and lines[real[0]][0] in " \t":
+        tags.append("first-line-indented")
+    if under_indented(lines):
+        tags.append("under-indented")
+        tags += sorted("under-indented:" + k for k in under_indented_kinds(lines))
     if lines and lines[0] == "":
         tags.append("leading-blank")
     if lines and lines[-1] == "" and real:
@@ -501,12 +563,13 @@ def py_shape(lines):
 
 
 def py_body_tags(story: Story):
-    """The blank-line shapes of the Python blocks of a story that take part in signatures."""
+    """The shapes of the Python blocks of a story that take part in signatures (blank-line shapes; a line indented less
+    than the block's first line)."""
     tags = set()
     for p in story.passages:
         for it, _ in walk(p.body):
             if isinstance(it, PyBlock):
-                tags.update(t for t in py_shape(it.lines) if t in ("leading-blank", "ws-only-line"))
+                tags.update(t for t in py_shape(it.lines) if t in ("leading-blank", "ws-only-line", "under-indented"))
     return sorted(tags)
 
 
@@ -520,6 +583,10 @@ def well_formed(story: Story) -> bool:
                 if n + 1 == len(p.body) or isinstance(p.body[n + 1], Blank):
                     return False
     return True
+
+
+def has_under_indented_py(story: Story) -> bool:
+    return any(isinstance(it, PyBlock) and under_indented(it.lines) for p in story.passages for it, _ in walk(p.body))
 
 
 def has_block(story: Story) -> bool:
@@ -686,9 +753,96 @@ PY_COMPOUND = [
 WS_ONLY = ["  ", "    ", "\t", " "]
 
 
-def gen_py_block(rng):
+UI_BASES = ["  ", "    ", "    ", "      ", "\t", "\t\t", " \t"]
+UI_ELEMS = ["'squire'", "'knight'", "n // 2", "m", '"go -> Hall"', '"a <> b"', "hp + 1", "[1, 2]", "(n, m)", '"50/50"']
+# lines of a triple-quoted string (none is a block closer: a line `>>` / `@endpy` ends the block by design)
+UI_WORDS = ["Fortune favours", "the bold", "go -> Hall", "a // b", "  two spaces in", "# not a comment", "{n} coins",
+            "+ [Not a choice] -> Hall", "x >> 2", "~ n = 1"]
+
+
+def _under(rng, base):
+    """An indentation strictly shorter than `base` (a proper prefix of it, or nothing)."""
+    return base[:rng.randrange(len(base))]
+
+
+def _ui_construct(rng, base):
+    """One multi-line construct whose first line stands at `base` and whose further lines are free to stand anywhere:
+    -> (lines, at least one further line is under-indented)."""
+    def where():
+        # under-indented (most of the time), at the base, or deeper than the base
+        r = rng.random()
+        return _under(rng, base) if r < 0.6 else base if r < 0.8 else base + rng.choice(["  ", "    ", "\t"])
+
+    v = rng.choice(["ranks", "vals", "parts"])
+    kind = rng.choice(["list", "list", "dict", "call", "sum", "nested", "triple", "triple", "triple-arg", "list-close-on-last"])
+    if kind in ("triple", "triple-arg"):
+        q = rng.choice(["'''", '"""'])
+        words = [w for w in rng.sample(UI_WORDS, rng.randint(1, 3)) if q[0] not in w]
+        head = base + (f"motto = {q}" if kind == "triple" else f"xs.append({q}") + rng.choice(["", "", "First line"])
+        body = [where() + w for w in words]
+        if rng.random() < 0.3:
+            body.insert(rng.randrange(len(body) + 1), "")          # an empty line inside the string
+        close = q + (")" if kind == "triple-arg" else "")
+        if rng.random() < 0.5 and body and body[-1].strip():
+            body[-1] += close                                        # the string ends on its last text line
+        else:
+            body.append(where() + close)
+        return [head] + body
+    elems = [rng.choice(UI_ELEMS) for _ in range(rng.randint(1, 3))]
+    if kind == "list":
+        return [base + f"{v} = ["] + [where() + e + "," for e in elems] + [where() + "]"]
+    if kind == "list-close-on-last":
+        return [base + f"{v} = ["] + [where() + e + "," for e in elems[:-1]] + [where() + elems[-1] + "]"]
+    if kind == "dict":
+        return [base + "d = {"] + [where() + f'"{k}": {e},' for k, e in zip(("k", "half", "w"), elems)] + [where() + "}"]
+    if kind == "call":
+        return [base + "n = max("] + [where() + e + "," for e in ["n", "m", "hp + 1"][:len(elems)]] + [where() + "1)"]
+    if kind == "sum":
+        return [base + "n = ("] + [where() + "n"] + [where() + rng.choice(["+", "//", "*"]) + " " + t
+                                                     for t in ["m", "2", "hp"][:len(elems)]] + [where() + ")"]
+    return [base + f"{v} = [", where() + "[n,", where() + " m],", where() + "[1, 2],", where() + "]"]
+
+
+def gen_under_indented_py_block(rng):
+    """A Python block as an author may write it whose first line is indented and which contains lines indented LESS
+    than the first one: continuation lines of a bracketed expression and lines of a triple-quoted string (the only
+    places where Python allows that).  Ordinary statements and compound statements at the base indentation stand
+    before / between / after; blank-line shapes as in gen_py_block.  Valid Python after the documented dedent."""
+    for _ in range(50):
+        base = rng.choice(UI_BASES)
+        lines = []
+        r = rng.random()
+        if r < 0.2:
+            lines += [""] * rng.choice([1, 2])
+        elif r < 0.27:
+            lines.append(rng.choice(WS_ONLY))
+        n_multi = rng.choice([1, 1, 2])
+        parts = ["multi"] * n_multi + ["flat"] * rng.randint(0, 2) + ["compound"] * rng.choice([0, 0, 1])
+        rng.shuffle(parts)
+        if rng.random() < 0.6:                       # more often than not the block opens with an ordinary statement
+            parts.insert(0, "flat")
+        for n, part in enumerate(parts):
+            if n and rng.random() < 0.25:
+                lines.append("" if rng.random() < 0.75 else rng.choice(WS_ONLY))
+            if part == "multi":
+                lines += _ui_construct(rng, base)
+            elif part == "flat":
+                lines.append(base + rng.choice(PY_FLAT))
+            else:
+                lines += [base + l if l.strip() else l for l in rng.choice(PY_COMPOUND)]
+        if rng.random() < 0.2:
+            lines += [""] * rng.choice([1, 2])
+        if under_indented(lines) and py_block_ok(lines) and "unknown" not in under_indented_kinds(lines):
+            return lines
+    return ["    vals = [", "  n // 2,", "    ]"]
+
+
+def gen_py_block(rng, under=0.14):
     """The lines of a Python block: statements and compound statements (nested indentation), optionally with blank
-    lines first/last/in between and with whitespace-only lines."""
+    lines first/last/in between and with whitespace-only lines; with probability `under` a block of the
+    `under-indented` family (gen_under_indented_py_block)."""
+    if rng.random() < under:
+        return gen_under_indented_py_block(rng)
     if rng.random() < 0.2:
         return list(rng.choice(PY_BLOCKS))
     lines = []
@@ -1006,16 +1160,25 @@ def _simpler_leaves(it):
         if blanks and len(blanks) + 1 < len(ls):            # one statement, the blank / whitespace-only lines kept
             yield PyBlock(["x = 1"] + blanks)
             yield PyBlock(blanks + ["x = 1"])
+        ui = under_indented(ls)
+        if ui:                                              # the smallest blocks of the family first
+            real = [l for l in ls if l.strip()]
+            b = real[0][:_lead(real[0])]
+            u = min((l[:_lead(l)] for l in real), key=len)
+            for small in ([b + "vals = [", u + "1,", b + "]"], [b + "s = '''", u + "a", b + "'''"],
+                          [b + "s = '''", u + "a'''"]):
+                if small != ls:
+                    yield PyBlock(small)
         for k in range(len(ls) - 1, -1, -1):                # drop one line (a real statement stays, valid Python)
             rest = ls[:k] + ls[k + 1:]
-            if any(l.strip() for l in rest) and python_ok("\n".join(rest)) and \
-                    not (rest[0].strip() and rest[0][0] in " \t"):
+            if any(l.strip() for l in rest) and py_block_ok(rest) and \
+                    (ui or not (rest[0].strip() and rest[0][0] in " \t")):
                 yield PyBlock(rest)
         for k, l in enumerate(ls):
             if l.strip() and l.strip() != "x = 1" and not l.rstrip().endswith(":"):
                 ind = l[:len(l) - len(l.lstrip())]
                 rest = ls[:k] + [ind + "x = 1"] + ls[k + 1:]
-                if python_ok("\n".join(rest)):
+                if py_block_ok(rest) and (ui or python_ok("\n".join(rest))):
                     yield PyBlock(rest)
     elif isinstance(it, Choice) and (it.cond is not None or it.tags or it.text != "Go"):
         yield Choice(it.sticky, None, "Go", it.target, it.args, [], it.block)
